@@ -34,6 +34,9 @@ class DeflateZipModel(JWEZipModel):
             raise DecodeError(f"Invalid compressed data: {error}")
         if exceeded:
             raise ExceededSizeError(f"Decompressed string exceeds {MAX_SIZE} bytes")
+        if not decompressor.eof:
+            # the stream stops before its final block: what was produced so far is not the plaintext
+            raise DecodeError("Invalid compressed data: incomplete stream")
         return value
 
 
